@@ -258,7 +258,8 @@ impl Context {
                         let int_indices: Vec<i32> = indices.try_cast()?;
                         address_offset_of_element(v_arr, &int_indices)
                     }
-                    _ => panic!("Expected array"),
+                    // a dynamic array that has not been dimensioned yet by REDIM
+                    _ => Err(RuntimeError::SubscriptOutOfRange),
                 }
             }
             Path::Property(parent_path, property_name) => {
@@ -293,7 +294,8 @@ impl Context {
                         let int_indices: Vec<i32> = indices.try_cast()?;
                         v_arr.get_element(&int_indices).map_err(RuntimeError::from)
                     }
-                    _ => panic!("Expected array"),
+                    // a dynamic array that has not been dimensioned yet by REDIM
+                    _ => Err(RuntimeError::SubscriptOutOfRange),
                 }
             }
             Path::Property(parent_path, property_name) => {
